@@ -74,7 +74,9 @@ Definition replace (h : headers) (name value : bytes) : headers := add (remove h
 Definition set_content_length (h : headers) (len : option N) : headers :=
   {| stored := stored h; content_length := len; chunked := chunked h; connection_close := connection_close h; print_date := print_date h |}.
 
+(* idempotent (fix F36): already declared, by an earlier call or by an added field *)
 Definition set_transfer_encoding_chunked (h : headers) : headers :=
+  if chunked h then h else
   {| stored := stored h ++ [(TRANSFER_ENCODING, bs "chunked")]; content_length := content_length h; chunked := true;
      connection_close := connection_close h; print_date := print_date h |}.
 
